@@ -92,10 +92,11 @@ def realItems (b : SBlock) : List SItem := keptItems b.items ++ (b.last.map SIte
 /-- one item per line; `om`: the last item, if a declaration, is written without `;` -/
 def layItems (om : Bool) (lv : Nat) : List SItem → List (SItem × WGap) × Option SDecl
   | [] => ([], none)
-  | i :: rest =>
-    match om, i, rest with
-    | true, .decl d, [] => ([], some (canonDecl (some (nl lv)) d))
-    | _, _, _ => ((canonItem i, [nl lv]) :: (layItems om lv rest).1, (layItems om lv rest).2)
+  | [i] =>
+    match om, i with
+    | true, .decl d => ([], some (canonDecl (some (nl lv)) d))
+    | _, _ => ([(canonItem i, [nl lv])], none)
+  | i :: j :: rest => ((canonItem i, [nl lv]) :: (layItems om lv (j :: rest)).1, (layItems om lv (j :: rest)).2)
 
 /-- `do_css_CSSStyleDeclaration` inside braces at indentation level `lv` -/
 def canonBlock (lv : Nat) (b : SBlock) : SBlock :=
